@@ -355,10 +355,40 @@ def like_spec(c, ids=None):
     return out
 
 
+def fasta_text(seqs, fmt):
+    """the sequences as FASTA text: lines wrapped at fmt['wrap'] characters (0 = one line per record), optional blank
+    line between records, CRLF line ends, last line with or without a line terminator"""
+    nl = "\r\n" if fmt.get("crlf") else "\n"
+    lines = []
+    for k, s in enumerate(seqs):
+        if k and fmt.get("blank"):
+            lines.append("")
+        lines.append(">" + s["taxon"])
+        w = fmt.get("wrap") or len(s["sequence"]) or 1
+        lines.extend(s["sequence"][i:i + w] for i in range(0, len(s["sequence"]), w))
+    return nl.join(lines) + (nl if fmt.get("final_newline", True) else "")
+
+
 def build_like(c):
-    dic = {}
-    for el in (tt.explicit64(like_spec(c)) if c.get("f32default") else like_spec(c)):
-        tt.build(el, dic)
+    import os
+    import tempfile
+
+    spec = like_spec(c)
+    path = None
+    if c.get("fasta"):
+        # the alignment read from a FASTA file instead of being written inline
+        aln = spec[-1]["site_pattern"]["alignment"]
+        fd, path = tempfile.mkstemp(prefix="vt-aln-", suffix=".fa")
+        with os.fdopen(fd, "w", newline="") as fp:
+            fp.write(fasta_text(aln.pop("sequences"), c["fasta"]))
+        aln["file"] = path
+    try:
+        dic = {}
+        for el in (tt.explicit64(spec) if c.get("f32default") else spec):
+            tt.build(el, dic)
+    finally:
+        if path:
+            os.remove(path)
     return dic
 
 
